@@ -218,6 +218,22 @@ func runC09(c *mon.Ctx) {
 				blk[31] = byte(last)
 				cts = append(cts, ct{alg, fmt.Sprintf("cbc-lastbyte-%d", last), sym, sim.EncryptCBCRaw(sym, blk)})
 			}
+			// a pad-length-looking byte followed by k zero bytes (the decoder strips trailing zeros before reading the pad length)
+			for _, pb := range []int{1, 2, 3, 5, 8, 15, 16, 17, 31, 32, 33, 128, 200, 255} {
+				for _, zeros := range []int{1, 2, 7, 14, 15} {
+					for _, nblk := range []int{1, 2} {
+						blk := bytes.Repeat([]byte{'B'}, 16*nblk)
+						for i := 0; i < zeros; i++ {
+							blk[len(blk)-1-i] = 0
+						}
+						blk[len(blk)-1-zeros] = byte(pb)
+						if zeros == 15 && nblk == 1 {
+							blk[0] = byte(pb)
+						}
+						cts = append(cts, ct{alg, fmt.Sprintf("cbc-pad%d-then-%dzeros-%dblk", pb, zeros, nblk), sym, sim.EncryptCBCRaw(sym, blk)})
+					}
+				}
+			}
 			for _, nb := range []int{1, 2, 5} {
 				cts = append(cts, ct{alg, fmt.Sprintf("cbc-allzero-%dblocks", nb), sym, sim.EncryptCBCRaw(sym, make([]byte, 16*nb))})
 				z := make([]byte, 16*nb)
